@@ -49,6 +49,10 @@ M = [  # (name, file, old, new, property)
     ('init-terminal-resets-count', 'bdd.py', "        self._ref.setdefault(u, 1)", "        self._ref[u] = 1", 'C08'),
     ('init-minfree-3', 'bdd.py', "        self._min_free: _Nat = 2\n", "        self._min_free: _Nat = 3\n", 'C02'),
     ('init-terminal-level-1', 'bdd.py', "        # handle no vars\n        self._init_terminal(len(self.vars))", "        # handle no vars\n        self._init_terminal(1)", 'C02'),
+    ('sort-compare-flipped', 'bdd.py', "            if p > q:\n                bdd.swap(i, i + 1, levels)", "            if p < q:\n                bdd.swap(i, i + 1, levels)", 'C07'),
+    ('sort-inner-range-short', 'bdd.py', "        for i in range(n - 1):\n            for root in bdd.roots:", "        for i in range(n - 2):\n            for root in bdd.roots:", 'C07'),
+    ('shift-wrong-neighbour', 'bdd.py', "        j = i + d\n        oldn, n = bdd.swap(i, j, levels)", "        j = i - d\n        oldn, n = bdd.swap(i, j, levels)", 'C07'),
+    ('shift-one-too-far', 'bdd.py', "    for i in range(start, end, d):\n        j = i + d", "    for i in range(start, end + d, d):\n        j = i + d", 'C07'),
     ('harmless-ite-high-first', 'bdd.py', "        p = self._ite(g0, u0, v0)\n        q = self._ite(g1, u1, v1)\n", "        q = self._ite(g1, u1, v1)\n        p = self._ite(g0, u0, v0)\n", 'C01'),
     ('harmless-add_var-inverse-first', 'bdd.py', "        self.vars[var] = level\n        self._level_to_var[level] = var\n", "        self._level_to_var[level] = var\n        self.vars[var] = level\n", 'C14'),
     ('harmless-foa-incref-order', 'bdd.py', "        self.incref(v)\n        self.incref(w)\n        return r * u", "        self.incref(w)\n        self.incref(v)\n        return r * u", 'C06'),
